@@ -63,9 +63,7 @@ func checkC16(c *Ctx, r *Report) {
 			}
 			r.OK("C16.a", "R11 STAGED", construct, c.pos(sc.TemplPos), fmt.Sprintf("%d bytes of Go parse and type-check (template %s)", len(sk.Src), sc.TemplVar))
 		}
-		if !sc.V.Http {
-			c16HoleContexts(c, r, sc)
-		}
+		c16HoleContexts(c, r, sc)
 	}
 	r.Extra["C16_skeletons"] = nSk
 	if nSk < 4 {
